@@ -31,6 +31,9 @@ pub fn standard_input(rng: &mut Rng) -> (XV, Vec<(String, Ty)>) {
         ("lst".into(), XV::V(vec![XV::I(1), XV::I(rng.range(0, 4))])),
         ("mp".into(), XV::M(vec![("a".into(), XV::I(rng.range(0, 4)))])),
         ("nil".into(), XV::N),
+        // a field named like a symbol (the symbol `limit` has another value): the two namespaces
+        // must never be confused
+        ("limit".into(), XV::I(rng.range(20, 29))),
     ];
     // drop a few fields so that references to them become UnknownRef in some runs
     if rng.chance(1, 4) {
@@ -46,6 +49,9 @@ pub fn standard_symbols(rng: &mut Rng) -> Vec<(String, XV)> {
         ("limit".into(), XV::I(rng.range(0, 9))),
         ("on".into(), XV::B(rng.chance(1, 2))),
         ("label".into(), XV::s("sym")),
+        // symbols named like input fields, with other values
+        ("x".into(), XV::I(rng.range(30, 39))),
+        ("flag".into(), XV::s("not a bool")),
     ]
 }
 
